@@ -233,6 +233,9 @@ func (rn *Runner) Finish(out string) {
 	for k, n := range routeCounts {
 		rn.St.Dist["alternate-route:"+k] += n
 	}
+	for k, n := range aftermathCount {
+		rn.St.Dist["aftermath:"+k] += n
+	}
 	rn.Flush()
 	profReport()
 	keys := make([]string, 0, len(rn.St.Dist))
